@@ -116,3 +116,89 @@ pub proof fn lemma_entry_layout(e: StateEntry)
         assert(b.subrange(52 + cl, b.len() as int) =~= e.command@);
     }
 }
+
+// ---- LINK harnesses: the contracts unit journal (and unit encryption) ASSUME for EntryCommand::{to_bytes, from_bytes}, proved from the
+// real functions ---------------------------------------------------------------------------------------------------------------------
+// Each harness has the assuming unit's stub signature, its `requires` / `ensures` copied VERBATIM from that unit's prelude.rs, and a
+// body that is ONE call of the real extracted function (plus proof blocks calling proved lemmas): Verus proves
+// "real contract ==> assumed contract" on every run. A later edit of a stub has to be mirrored here (and vice versa).
+//
+// (vocabulary of units/journal/prelude.rs and units/encryption/prelude.rs used by the copied clauses; `cmd_wf` is the same text in both)
+pub open spec fn cmd_wf(c: Seq<u8>) -> bool {
+    c.len() >= 8 && c.len() - 8 <= u32::MAX && c.subrange(4, 8) == le32((c.len() - 8) as u32)
+}
+// INTERPRETATION of unit journal's uninterpreted `decodable` ("the decoders do not panic on this framed command"): the hypothesis under
+// which the REAL `EntryCommand::from_bytes` is under contract here - the declared payload length lies inside the buffer, and for the token
+// command the payload's own two lengths lie inside the payload. This covers the slicing of command.rs and models.rs. The 18 SDK payload
+// decoders below that are total stubs in this unit (unit.toml, assumption "the per-type decoder stubs have no precondition"): their own
+// panic freedom on a payload that came out of their own encoder is units codec_requests / codec_requests2's subject and stays assumed here.
+pub open spec fn decodable(c: Seq<u8>) -> bool {
+    frame_ok(c) && (frame_code(c) == CreatePersonalAccessToken::code_spec() ==> pat_framed(frame_payload(c)))
+}
+// INTERPRETATION of unit encryption's uninterpreted `cmd_bytes` (the clear journal form of a command): THE journal form `cmd_enc`
+pub open spec fn cmd_bytes(c: EntryCommand) -> Seq<u8> { cmd_enc(c) }
+
+// what `to_bytes` writes is a frame `from_bytes` is under contract for (spec level; used by the to_bytes harnesses)
+pub proof fn lemma_cmd_enc_decodable(c: EntryCommand)
+    ensures
+        cmd_payload(c).len() <= u32::MAX ==> cmd_wf(cmd_enc(c)) && decodable(cmd_enc(c)) && frame_code(cmd_enc(c)) == cmd_code(c)
+            && frame_payload(cmd_enc(c)) == cmd_payload(c),
+{
+    if cmd_payload(c).len() <= u32::MAX {
+        lemma_le_facts();
+        lemma_frame3(Seq::<u8>::empty(), le32(cmd_code(c)), le32(cmd_payload(c).len() as u32), cmd_payload(c));
+        let b = cmd_enc(c);
+        assert(b =~= Seq::<u8>::empty() + le32(cmd_code(c)) + le32(cmd_payload(c).len() as u32) + cmd_payload(c));
+        assert(frame_code(b) == cmd_code(c));
+        assert(frame_len(b) == cmd_payload(c).len());
+        assert(frame_payload(b) == cmd_payload(c));
+        c13_journal_codes_distinct();
+        if c is CreatePersonalAccessToken {
+            // 8 + |command| + |hash| <= u32::MAX: both inner lengths fit their words
+            let p = c->CreatePersonalAccessToken_0;
+            assert(enc_pat_hash(p).len() == 8 + p.command.enc_spec().len() + p.hash@.len());
+            lemma_pat_layout(p);
+        }
+    }
+}
+
+impl EntryCommand {
+    // INTERPRETATION of unit journal's uninterpreted `EntryCommand::payload_fits` (journal's EntryCommand is opaque): the precondition of
+    // the real `to_bytes` - the payload length fits the u32 length word
+    pub open spec fn payload_fits(&self) -> bool { cmd_payload(*self).len() <= u32::MAX }
+    // INTERPRETATION of unit journal's `EntryCommand::cmd_bytes` (no definition there): THE journal form `cmd_enc` (as for unit encryption's
+    // free function `cmd_bytes` above)
+    pub open spec fn cmd_bytes(&self) -> Seq<u8> { cmd_enc(*self) }
+
+    // copied from units/journal/prelude.rs, stub `EntryCommand::to_bytes`
+    // label: C13.link.journal.to_bytes
+    pub fn link_journal_to_bytes(&self) -> (r: ByteSeq)
+        requires self.payload_fits(),
+        ensures cmd_wf(r@), decodable(r@), r@ == self.cmd_bytes(),
+    {
+        proof { lemma_cmd_enc_decodable(*self); }
+        self.to_bytes()
+    }
+
+    // copied from units/journal/prelude.rs, stub `EntryCommand::from_bytes` (no ensures there: only that the call does not panic)
+    // label: C13.link.journal.from_bytes
+    pub fn link_journal_from_bytes(bytes: ByteSeq) -> (r: Result<EntryCommand, IggyError>)
+        requires
+            bytes@.len() >= 8,
+            forall|n: u32| bytes@.subrange(4, 8) == #[trigger] le32(n) ==> 8 + n <= bytes@.len(),
+            decodable(bytes@),
+    {
+        EntryCommand::from_bytes(bytes)
+    }
+
+    // copied from units/encryption/prelude.rs, stub `EntryCommand::to_bytes` (its precondition, in encryption's vocabulary: the journal
+    // form is at most 8 + u32::MAX bytes long, i.e. the payload length fits the length word - the real function's `requires`)
+    // label: C13.link.encryption.to_bytes
+    pub fn link_encryption_to_bytes(&self) -> (r: ByteSeq)
+        requires cmd_bytes(*self).len() <= 8 + u32::MAX,
+        ensures r@ == cmd_bytes(*self), cmd_wf(r@)
+    {
+        proof { lemma_le_facts(); lemma_cmd_enc_decodable(*self); }
+        self.to_bytes()
+    }
+}
